@@ -1,6 +1,7 @@
 package main
 
 import (
+	"sort"
 	"fmt"
 	"go/ast"
 	"go/token"
@@ -377,6 +378,24 @@ func (c *Ctx) builtinSemantics(fr *Frame, st *State, callee *ssa.Function, args 
 		if c.mode == BV {
 			return c.mkVal(f64, fmt.Sprintf("((_ to_fp 11 53) %s)", args[0].S)), true
 		}
+	case "bytes.IndexByte":
+		if len(args) == 2 && args[0].S != "" && args[1].S != "" && c.mode == INT {
+			// a deterministic function of the slice contents; characterised by first-occurrence axioms
+			elem := types.Typ[types.Uint8]
+			key := c.arrKeyFor(elem)
+			c.ensureHeapSort(key, elem)
+			h := c.heapSym(st, key)
+			c.declUF("bytes_indexbyte", []string{c.heapSorts[key], "Slice", "Int"}, "Int")
+			r := c.def("ixb", "Int", fmt.Sprintf("(bytes_indexbyte %s %s %s)", h, args[0].S, args[1].S))
+			at := func(j string) string {
+				return fmt.Sprintf("(select (select %s (s_arr %s)) (+ (s_off %s) %s))", h, args[0].S, args[0].S, j)
+			}
+			c.assume("true", fmt.Sprintf("(and (<= (- 1) %s) (< %s (s_len %s)))", r, r, args[0].S))
+			c.assume("true", fmt.Sprintf("(=> (>= %s 0) (= %s %s))", r, at(r), args[1].S))
+			c.assume("true", fmt.Sprintf("(forall ((j!ib Int)) (=> (and (<= 0 j!ib) (< j!ib (ite (>= %s 0) %s (s_len %s)))) (not (= %s %s))))", r, r, args[0].S, at("j!ib"), args[1].S))
+			c.trusted["bytes.IndexByte: index of the first occurrence, or -1 (axiomatised)"] = true
+			return c.mkVal(types.Typ[types.Int], r), true
+		}
 	case "strings.Repeat":
 		if len(args) == 2 && args[0].S != "" && args[1].S != "" {
 			// the result has len(s)*count bytes (count >= 0, otherwise strings.Repeat panics)
@@ -459,6 +478,10 @@ func (c *Ctx) callSiteAsserts(fr *Frame, st *State, callee *ssa.Function, args [
 	ords := map[string]int{}
 	for _, f := range forms {
 		if _, dup := ords[f]; dup {
+			continue
+		}
+		if n, ok := sourceOrdinal(fr, at, f); ok {
+			ords[f] = n // ordinal of the call site in source order
 			continue
 		}
 		fr.callSeq["site:"+kind+f]++
@@ -1045,4 +1068,48 @@ func modifiesNothing(ct *Contract) bool {
 		}
 	}
 	return true
+}
+
+// sourceOrdinal: position of call instruction `at` among the calls of the
+// function to the callee named `form` (short name, qualified name or
+// receiver-qualified name), in source order.
+func sourceOrdinal(fr *Frame, at ssa.Instruction, form string) (int, bool) {
+	if at == nil || fr.fn == nil {
+		return 0, false
+	}
+	if fr.siteOrd == nil {
+		fr.siteOrd = map[string]map[ssa.Instruction]int{}
+	}
+	m, ok := fr.siteOrd[form]
+	if !ok {
+		type site struct {
+			in  ssa.Instruction
+			pos token.Pos
+		}
+		var sites []site
+		for _, b := range fr.fn.Blocks {
+			for _, in := range b.Instrs {
+				ci, ok := in.(ssa.CallInstruction)
+				if !ok {
+					continue
+				}
+				callee := ci.Common().StaticCallee()
+				if callee == nil {
+					continue
+				}
+				match := callee.Name() == form || fnKey(callee) == form || (callee.Pkg != nil && callee.RelString(callee.Pkg.Pkg) == form)
+				if match {
+					sites = append(sites, site{in, in.Pos()})
+				}
+			}
+		}
+		sort.SliceStable(sites, func(i, j int) bool { return sites[i].pos < sites[j].pos })
+		m = map[ssa.Instruction]int{}
+		for i, s := range sites {
+			m[s.in] = i + 1
+		}
+		fr.siteOrd[form] = m
+	}
+	n, ok := m[at]
+	return n, ok
 }
